@@ -13,6 +13,7 @@ class P(Prop):
     THEOREMS = (["C07_shapes", "C07_lane_rounded"] +
                 ["C07_Poly%d_%s" % (k, w) for k in range(8) for w in ("indefinite", "integral", "knot", "knot_float")] +
                 ["C07_Poly%d_roundtrip_lanes" % k for k in range(8)] +
+                ["C07_Poly%d_knot_hypotheses_hold" % k for k in range(8)] + ["C07_roundtrip_hypotheses_hold"] +
                 ["C07_antiderivative", "C07_roundtrip_exact", "C07_roundtrip_one_ulp", "C07_divisors_ok",
                  "C07_roundtrip_refuted_when_subnormal", "C07_example"])
     KERNELS = (["Poly%d::indefinite" % k for k in range(8)] + ["Poly%d::integral" % k for k in range(8)] +
@@ -87,6 +88,12 @@ class P(Prop):
                 out.append(K.kernel_case("Segment<Poly%d>::integral" % k, [e] + cs + [x, y], cls="seg_integral"))
                 out.append(K.kernel_case("Segment<Poly%d>::indefinite" % k, [e] + cs, cls="seg_indefinite"))
         return out
+
+    def hyp_term(self, case, h):
+        # `safe` for the integral kernel itself (the composed term of C07_PolyK_knot_float contains it)
+        if case["op"] == "k" and case["name"].endswith("::integral") and case["name"].startswith("Poly"):
+            return "hyp_safe (tl %s) %s" % (C.kname(case["name"]), C.zlist(case["args"]))
+        return None
 
     def coq_term(self, case, h):
         return K.kernel_term(case, h)
